@@ -80,6 +80,10 @@ type c17Data struct {
 	Reads       []*c17Read        `json:"reads"`
 	Steps       []string          `json:"clock_steps"`
 	Reconf      *c17Reconf        `json:"reconfigured,omitempty"`
+	Home        string            `json:"home"`
+	InitDirs    []string          `json:"initial_dirs,omitempty"`
+	Sibling     string            `json:"sibling_file,omitempty"`
+	SiblingGone bool              `json:"sibling_removed,omitempty"`
 	WriteFailed []int64           `json:"write_failures,omitempty"`
 	OpenFailed  []string          `json:"open_failures,omitempty"`
 	Initial     map[string]string `json:"-"`
@@ -139,13 +143,19 @@ func dayUnit(ms int64) int64 {
 	return ms / 86400000
 }
 
-const c17Home = "/wh"
+// c17Home is the logger's home directory of the current run (set at the start of the body;
+// post-run oracles run right after it in the same process)
+var c17Home = "/wh"
 
 func c17Body(rc *RunCtx) {
 	d := &c17Data{Initial: map[string]string{}, removed: map[string]func() []byte{}}
 	rc.Data = d
 	disk := simos.Reset()
 	disk.OnRemove = d.onRemove
+	// the home path is data, not a pattern: one in six runs uses a name with characters that
+	// mean something to a glob, next to a sibling the pattern would match
+	c17Home = []string{"/wh", "/wh", "/wh", "/wh", "/wh", "/srv/node[1]"}[simrt.Choose(6)]
+	d.Home = c17Home
 	disk.MkdirAllRaw(c17Home)
 	disk.WriteRaw(c17Home+"/secret.txt", []byte("TOP-SECRET-OUTSIDE-LOGS\n"))
 	disk.WriteRaw("/etc/passwd", []byte("root:x:0:0:OUTSIDE\n"))
@@ -153,7 +163,7 @@ func c17Body(rc *RunCtx) {
 	disk.WriteRaw(c17Home+"/logs_private/secret.txt", []byte("SIBLING-SECRET\n"))
 	disk.WriteRaw(c17Home+"/logs.old/app.log", []byte("SIBLING-OLD-LOG\n"))
 	disk.WriteRaw(c17Home+"/logsink/data.bin", []byte("SIBLING-DATA\n"))
-	d.LogID = []string{"whatap", "RUM", "wa"}[simrt.Choose(3)]
+	d.LogID = []string{"whatap", "RUM", "wa", "whatap", "RUM", "wa", "app?", "w[12]"}[simrt.Choose(8)]
 	d.Oname = []string{"boot", "rumctl", "agent-1"}[simrt.Choose(3)]
 	d.Level = 2 // default warn
 	d.Interval = 10
@@ -212,7 +222,18 @@ func c17Body(rc *RunCtx) {
 			put(fmt.Sprintf("%s-%s-%s.log", d.LogID, d.Oname, ymd(nowMs - 30*day)[:7])) // 7-digit date
 		}
 		if simrt.Chance(1, 3) {
-			disk.MkdirAllRaw(c17Home + "/logs/" + fmt.Sprintf("%s-%s-%s.log", d.LogID, "dir", ymd(nowMs-30*day)))
+			dn := fmt.Sprintf("%s-%s-%s.log", d.LogID, "dir", ymd(nowMs-30*day))
+			disk.MkdirAllRaw(c17Home + "/logs/" + dn)
+			d.InitDirs = append(d.InitDirs, dn)
+		}
+		// what the id or the home path would match if they were taken for patterns
+		glob := strings.NewReplacer("?", "2", "[12]", "1", "[1]", "1")
+		if g := glob.Replace(d.LogID); g != d.LogID && simrt.Chance(2, 3) {
+			put(fmt.Sprintf("%s-%s-%s.log", g, d.Oname, ymd(nowMs-30*day)))
+		}
+		if g := glob.Replace(c17Home); g != c17Home {
+			d.Sibling = g + "/logs/" + fmt.Sprintf("%s-%s-%s.log", d.LogID, d.Oname, ymd(nowMs-30*day))
+			disk.WriteRaw(d.Sibling, []byte("another node's old log\n"))
 		}
 		if simrt.Chance(1, 2) {
 			put("unrelated.txt")
@@ -455,6 +476,10 @@ func c17Body(rc *RunCtx) {
 	// quiet period: at least one full retention cycle and several rotation cycles, no clock steps
 	simrt.Settle(int64(75 * time.Second))
 	d.EndMs, d.EndNs = dateutil.Now(), simrt.Elapsed()
+	if d.Sibling != "" {
+		_, ok := disk.ReadRaw(d.Sibling)
+		d.SiblingGone = !ok
+	}
 	d.final = map[string]string{}
 	for _, nme := range disk.ListRaw(c17Home + "/logs") {
 		d.FinalList = append(d.FinalList, nme)
@@ -754,10 +779,19 @@ func c17After(rc *RunCtx, res *simrt.Result) {
 			}
 		}
 	}
-	for _, n := range d.FinalList {
-		if strings.HasSuffix(n, "/") {
-			continue
+	for _, dn := range d.InitDirs {
+		found := false
+		for _, n := range d.FinalList {
+			if n == dn+"/" {
+				found = true
+			}
 		}
+		if !found {
+			viol("retention-foreign-removed", fmt.Sprintf("the directory %q inside logs/ is not a dated log file but was removed", dn))
+		}
+	}
+	if d.SiblingGone {
+		viol("retention-foreign-removed", fmt.Sprintf("the file %s belongs to another home directory but was removed", d.Sibling))
 	}
 	// Read
 	logsDir := filepath.Join(c17Home, "logs")
